@@ -108,7 +108,19 @@ fn edge_float(r: &mut Rng) -> F10 {
 }
 
 fn case(m: &mut Mon, r: &mut Rng, _idx: u64) {
-    let (al, bl) = (edge_mag(r), edge_mag(r));
+    let (mut al, bl) = (edge_mag(r), edge_mag(r));
+    // related operands: domain edges of two-operand functions sit where one operand is next to the other, to a
+    // multiple or to a power of it (ilog just above the base, exact quotients, gcd of near-equal values)
+    match r.below(12) {
+        0 => al = limbs_of_nat(&(nat(&bl) + num_bigint::BigUint::from(r.below(3)))),
+        1 => al = limbs_of_nat(&(nat(&bl) + (nat(&bl) >> (14 + r.usize(40))) + 1u32)),
+        2 => al = limbs_of_nat(&(nat(&bl) * num_bigint::BigUint::from(1 + r.below(5)) + num_bigint::BigUint::from(r.below(2)))),
+        3 => {
+            let sq = nat(&bl) * nat(&bl);
+            al = limbs_of_nat(&if r.bool() || sq == num_bigint::BigUint::from(0u8) { sq + num_bigint::BigUint::from(r.below(2)) } else { sq - 1u32 });
+        }
+        _ => {}
+    }
     let (na, nb) = (r.bool(), r.bool());
     let (ua, ub) = (ubig(&al), ubig(&bl));
     let (ia, ib) = (ibig(na, &al), ibig(nb, &bl));
